@@ -193,6 +193,20 @@ def check(ctx):
                                    f"slice bound -{norm(bound.operand)} where {norm(bound.operand)} can be 0: x[-0:] is the whole "
                                    f"sequence, so {name}(0) returns every row instead of none",
                                    clause="head/tail keep the first/last min(n, nrow) rows")
+    from ..pattern import pmatch as _pm2
+    for cq, size in ((DF, "nrow"), (VEC, "length")):
+        h, t = repo.fn(f"{cq}.head"), repo.fn(f"{cq}.tail")
+        S_ = h.params[0]
+        hp = [c for f_, c in calls_in(h) if repo.dotted(f_, c.func) == "numpy.arange"]
+        ok = len(hp) == 1 and _pm2("np.arange(_N)", hp[0]) is not None and isinstance(_pm2("np.arange(_N)", hp[0])["_N"], ast.Name)
+        ctx.ob("SIB-3", h, norm(hp[0]) if hp else "np.arange(n)", hp[0] if hp else h.node, ok,
+               "head selects positions 0..n-1" if ok else "head does not select exactly positions 0..n-1",
+               clause="head/tail keep the first/last min(n, nrow) rows")
+        tp = [c for f_, c in calls_in(t) if repo.dotted(f_, c.func) == "numpy.arange"]
+        ok = len(tp) == 1 and (_pm2(f"np.arange({S_}.{size} - _N, {S_}.{size})", tp[0]) is not None)
+        ctx.ob("SIB-3", t, norm(tp[0]) if tp else "np.arange(size - n, size)", tp[0] if tp else t.node, ok,
+               "tail selects positions size-n..size-1" if ok else "tail does not select exactly the last n positions",
+               clause="head/tail keep the first/last min(n, nrow) rows")
     for cq in (DF, VEC):
         fn = repo.fn(f"{cq}.sample")
         rnd = [(f, c) for f, c in calls_in(fn) if (repo.dotted(f, c.func) or "").startswith(("numpy.random.", "random."))]
